@@ -524,7 +524,7 @@ func gen(r *hv.Rng, i int, tier string) (string, hv.Val) {
 	}
 	class := "req"
 	np := r.Intn(5)
-	huge := r.Chance(1, 120)
+	huge := r.Chance(1, 100)
 	var ps hv.L
 	seen := map[string]bool{}
 	for j := 0; j < np; j++ {
@@ -546,12 +546,12 @@ func gen(r *hv.Rng, i int, tier string) (string, hv.Val) {
 	}
 	if huge {
 		class += "-huge"
-		switch r.Intn(7) {
-		case 4, 5: // one pair whose encoding is exactly maxWrite-1 / maxWrite / maxWrite+1 bytes
+		switch r.Intn(9) {
+		case 4: // one pair whose encoding is exactly maxWrite-1 / maxWrite / maxWrite+1 bytes
 			ps = hv.L{hv.L{hv.S("A"), hv.B(r.Bytes(65500 - 6 + r.Range(-1, 1)))}}
-		case 6: // two pairs whose encodings sum to maxWrite-1 / maxWrite / maxWrite+1 (flush decision)
+		case 5, 6, 7, 8: // two pairs whose encodings sum to maxWrite-1 / maxWrite / maxWrite+1 (flush decision)
 			a := r.Range(30000, 33000)
-			b := 65500 + r.Range(-1, 1) - (6 + a) - 6
+			b := 65500 + []int{0, 0, -1, 1}[r.Intn(4)] - (6 + a) - 6
 			ps = hv.L{hv.L{hv.S("A"), hv.B(r.Bytes(a))}, hv.L{hv.S("B"), hv.B(r.Bytes(b))}}
 		case 0: // value that does not fit one record
 			ps = append(ps, hv.L{hv.S("HTTP_COOKIE"), hv.B(r.Bytes(r.Range(65400, 70500)))})
